@@ -7,7 +7,7 @@
    here: they are the definitions regenerated from pkg/koordlet/util/system/cgroup.go.
    Executable, total, no proofs in this file. *)
 From Coq Require Import List ZArith Bool.
-From Verif Require Export Lib.ListX.
+From Verif Require Export Lib.ListX Lib.Float53.
 From Verif Require Export Gen.Gen_consts Gen.Gen_funcs.
 Import ListNotations.
 Open Scope Z_scope.
@@ -52,13 +52,12 @@ Definition amount (o : option Z) : Z := match o with Some v => v | None => -1 en
 
 (* ---------- rule: CFS quota scaling ---------- *)
 
-(* exact ceiling of a / b for b > 0 *)
-Definition cdiv (a b : Z) : Z := - ((- a) / b).
-
-(* cfsQuota = int64(math.Ceil(float64(cfsQuota) / scaleRatio)) when cfsQuota > 0 && scaleRatio > 1.0;
-   the float64 quotient is modelled by the exact rational one (ratio = r / 100) *)
+(* cfsQuota = int64(math.Ceil(float64(cfsQuota) / scaleRatio)) when cfsQuota > 0 && scaleRatio > 1.0,
+   scaleRatio = ParseFloat of the node annotation (r hundredths). The float64 expression is
+   Lib.Float53.ratio_div_ceil: correctly rounded 53-bit quotient by the double nearest to r/100,
+   then the ceiling (exact for quotas below 2^53). scaleRatio > 1.0 iff r > 100. *)
 Definition scale_quota (r q : Z) : Z :=
-  if (0 <? q) && (100 <? r) then cdiv (q * 100) r else q.
+  if (0 <? q) && (100 <? r) then ratio_div_ceil r q else q.
 
 (* ---------- container level (SetContainerCPUShares / CFSQuota / MemoryLimit) ---------- *)
 
@@ -119,7 +118,9 @@ Definition be_of_code (q : Z) : bool := (q =? 1) || (q =? 5).
 (* cfs code 2 = suppress strategy enabled with policy cfsQuota -> quota disabled for batch pods;
    never parsed / defaults / other policies / strategy disabled -> enabled *)
 Definition cfs_of_code (c : Z) : bool := negb (c =? 2).
-(* ratio code k > 0: annotation k/100; -1 never parsed, 0 no annotation, -2/-3 rejected values *)
+(* ratio code k of a single node-meta update on a fresh rule: k > 0 annotation k/100; -1 never
+   parsed, 0 no annotation, -2/-3 rejected values (Rule.v models sequences of updates) *)
 Definition ratio_of_code (k : Z) : Z := if 0 <? k then k else -100.
 
-Definition cfg_of_codes (q c k : Z) : cfg := mkCfg (be_of_code q) (cfs_of_code c) (ratio_of_code k).
+(* [r] is the ratio the rule holds, in hundredths (-100 = unset / -1.0) *)
+Definition cfg_of_codes (q c r : Z) : cfg := mkCfg (be_of_code q) (cfs_of_code c) r.
